@@ -20,16 +20,23 @@ def main():
             tier = sys.argv[i + 1]
             args = [x for x in args if x != sys.argv[i + 1]]
     ids = args or sorted(os.path.basename(d) for d in glob.glob(os.path.join(VERIF, "seeded", "*")) if os.path.isdir(d))
-    st = sh("git -C /repo status --porcelain --untracked-files=no").stdout.strip()
-    if st:
-        print("refusing: /repo has uncommitted changes:\n" + st)
+    # work on a scratch worktree of /repo's HEAD so that nothing else running against /repo is disturbed
+    WT = "/var/tmp/seedtest/repo"
+    BD = "/var/tmp/seedtest/build"
+    sh("git -C /repo worktree remove --force %s" % WT)
+    sh("rm -rf /var/tmp/seedtest/repo")
+    os.makedirs("/var/tmp/seedtest", exist_ok=True)
+    a = sh("git -C /repo worktree add --detach %s HEAD" % WT)
+    if a.returncode != 0:
+        print(a.stdout)
         return 2
+    env = dict(os.environ, IMB_REPO=WT, IMB_VERIF_BUILD=BD)
     rc = 0
     for sid in ids:
         d = os.path.join(VERIF, "seeded", sid)
         meta = json.load(open(os.path.join(d, "meta.json")))
         props = [meta["property"]] + [p for p in also if p != meta["property"]]
-        a = sh(["git", "-C", "/repo", "apply", os.path.join(d, "patch.diff")])
+        a = sh(["git", "-C", WT, "apply", os.path.join(d, "patch.diff")])
         if a.returncode != 0:
             print(sid, "patch does not apply:", a.stdout[-300:])
             rc = 1
@@ -38,12 +45,12 @@ def main():
         try:
             for p in props:
                 t0 = time.time()
-                r = sh([os.path.join(VERIF, "check"), p, "--tier", tier], cwd=VERIF, timeout=3600)
+                r = sh([os.path.join(VERIF, "check"), p, "--tier", tier], cwd=VERIF, timeout=3600, env=env)
                 viol = [l for l in r.stdout.splitlines() if l.startswith("VIOLATION")]
                 results[p] = {"exit": r.returncode, "violations": viol[:5], "wall_s": round(time.time() - t0, 1)}
                 print(sid, p, "exit", r.returncode, viol[:2])
         finally:
-            sh("git -C /repo checkout -- .")
+            sh("git -C %s checkout -- ." % WT)
         meta.setdefault("detection", {})[tier] = results
         meta["detected"] = any(v["exit"] != 0 for v in results.values())
         json.dump(meta, open(os.path.join(d, "meta.json"), "w"), indent=1)
